@@ -11,7 +11,7 @@ from sa.homog import solver_scale_obligations
 from sa.krylov import axis_value, closure, is_norm_value, nospace, reductions
 
 
-def polynomial(e, routine, idx_=None):
+def polynomial(e, routine, idx_=None, tol_name="tol"):
     """expression over tol, norm(<initial residual>) and numbers -> {monomial: coefficient}; None outside the fragment.
     monomial = sorted tuple of (atom, power)"""
     def mul(p, q):
@@ -28,8 +28,11 @@ def polynomial(e, routine, idx_=None):
     def go(x):
         if isinstance(x, ast.Constant) and isinstance(x.value, (int, float)):
             return {(): float(x.value)}
-        if isinstance(x, ast.Name) and x.id == "tol":
+        if isinstance(x, ast.Name) and x.id == tol_name:
             return {(("tol", 1), ): 1.0}
+        if isinstance(x, ast.Name):
+            v = df.resolve_value(routine.node, x)
+            return go(v) if v is not x else None
         if isinstance(x, ast.Call) and ((df.is_xnp_call(x) == "norm" and x.args) or (idx_ is not None and is_norm_value(idx_, routine, x))):
             return {(("N", 1), ): 1.0}
         if isinstance(x, ast.BinOp) and isinstance(x.op, (ast.Add, ast.Sub)):
@@ -128,18 +131,34 @@ def run(idx, rep, tier):
                                detail="" if av in (-2, 0) else f"axis:{av}", locs=[idx.loc(test_fn.module, call)])
         else:
             rep.undecided("stopping-test", "cg:cond", "no any()/all() conjunct over the residual found")
-    # ---- tolerance computed once, from the initial residual of the normalised system
-    asg = df.assignments(routine.node)
-    tol_defs = [v for v, p, st in asg.get("tol", []) if p is None]
+    # ---- tolerance computed once, from the initial residual of the normalised system.  The threshold is whatever the stopping test
+    # compares the residual norm with, traced from the test function through the loop condition into the routine; the caller's
+    # tolerance is what the routine hands to the loop runner for reporting.  Neither is recognised by its name.
     ok = None
-    why = "no re-definition of tol found"
-    for v in tol_defs:
-        if "tol" in df.names_in(v) and any(isinstance(c_, ast.Call) and is_norm_value(idx, routine, c_) for c_ in ast.walk(v)):
-            # the threshold as a polynomial in (tol, N = ||r0||) must be tol*N + tol, however it is written
-            poly = polynomial(v, routine, idx)
-            want = {(("N", 1), ("tol", 1)): 1.0, (("tol", 1), ): 1.0}
-            ok = None if poly is None else poly == want
-            why = f"tol' = `{ast.unparse(v)}`" + ("" if ok else (": required tol * ||r0|| + tol" if ok is False else ": outside the polynomial fragment"))
+    why = "threshold of the stopping test not traced to the routine"
+    thr = None
+    if test_fn is not None and not isinstance(test_fn, ast.Lambda):
+        rets = lp.return_exprs(test_fn)
+        e = lp.inline_expr(idx, test_fn, rets[0]) if rets else None
+        cmp_ = next((c.args[0] for c in (lp.conjuncts(e) if e is not None else []) if isinstance(c, ast.Call) and ast.unparse(c.func).endswith((".any", ".all")) and c.args
+                     and isinstance(c.args[0], ast.Compare)), None)
+        if cmp_ is not None:
+            t = cmp_.comparators[0] if is_norm_value(idx, test_fn, cmp_.left) else (cmp_.left if is_norm_value(idx, test_fn, cmp_.comparators[0]) else None)
+            t = df.resolve_value(test_fn.node, t) if t is not None else None
+            if isinstance(t, ast.Name) and test_fn is not cond and bound and t.id in bound:
+                t = bound[t.id]  # the loop condition's argument for the test function's threshold parameter
+            thr = t
+    tol_arg = l.winfo_call.args[1] if l.winfo_call is not None and len(l.winfo_call.args) > 1 else None
+    tol_src = df.resolve_at(routine.node, tol_arg) if tol_arg is not None else None
+    if thr is not None and isinstance(tol_src, ast.Name) and tol_src.id in routine.params:
+        # read where the loop condition is defined (a closure of the routine) or, for a lambda / module-level test, at the loop call
+        at = cond.node.lineno if cond is not None and not isinstance(cond, ast.Lambda) and getattr(cond, "parent", None) is routine else l.call.lineno
+        v = df.resolve_at(routine.node, thr, at)
+        # the threshold as a polynomial in (tol, N = ||r0||) must be tol*N + tol, however it is written
+        poly = polynomial(v, routine, idx, tol_name=tol_src.id)
+        want = {(("N", 1), ("tol", 1)): 1.0, (("tol", 1), ): 1.0}
+        ok = None if poly is None else poly == want
+        why = f"threshold = `{ast.unparse(v)}`" + ("" if ok else (f": required {tol_src.id} * ||r0|| + {tol_src.id}" if ok is False else ": outside the polynomial fragment"))
     rep.decide(ok, "stopping-test", "cg:tolerance", why, detail="" if ok else "tolerance", locs=[idx.loc(routine.module, routine.node)])
     # ---- scaling in and out by the same quantity: decided by HOMOG below (an un-normalised right-hand side makes the threshold
     # inhomogeneous, a missing or doubled rescaling gives the solution a degree other than 1); the axis of the column norms is
